@@ -378,10 +378,14 @@ impl Property for C13 {
     fn level(&self) -> &'static str {
         "fault_enumeration"
     }
-    fn generate(&self, rng: &mut Rng, _tier: Tier) -> Box<dyn Case> {
+    fn generate(&self, rng: &mut Rng, tier: Tier) -> Box<dyn Case> {
         let mut cfg = GenCfg::swarm(rng);
         cfg.tron = false;
         cfg.size = *rng.pick(&[2usize, 3, 4, 6, 8]);
+        if tier == Tier::Thorough && rng.pct(35) {
+            // the thorough tier also explores larger programs
+            cfg.size *= 2;
+        }
         cfg.inkey = rng.pct(15);
         let layout_member = rng.pct(40);
         cfg.layout = layout_member;
